@@ -7,6 +7,8 @@ use vkit::gen::{self, G1Cfg};
 use vkit::rng::Rng;
 
 pub const HOSTILE: [&str; 8] = ["tails", "grid", "withlang", "tokens", "mutations", "bytes12", "chains", "pairs"];
+/// names whose undecodable octets each expand to a 3-octet U+FFFD when decoded lossily (21846 x 3 > 65535)
+pub const LONG_NAME_LENS: [usize; 5] = [21845, 21846, 32767, 32768, 65535];
 pub const PAIR_LENS: [usize; 24] = [0, 1, 2, 31, 32, 33, 63, 64, 65, 100, 120, 127, 128, 129, 200, 255, 256, 257, 1023, 1024, 1025, 4095, 4096, 4097];
 pub const CHAIN_LENS: [usize; 5] = [12, 256, 4096, 32764, 65535];
 pub const CHAIN_WORDS: usize = 10;
@@ -95,7 +97,7 @@ impl Ctx {
             "chains" => 256 * CHAIN_LENS.len() as u64 * CHAIN_WORDS as u64,
             // two consecutive elements of every pair of lengths (state carried from one name / value / member to the next:
             // reused buffers, remembered capacities), as names, as values, as member names and as member values
-            "pairs" => 4 * (PAIR_LENS.len() * PAIR_LENS.len()) as u64,
+            "pairs" => 4 * (PAIR_LENS.len() * PAIR_LENS.len()) as u64 + (LONG_NAME_LENS.len() * 4) as u64,
             "mutations" => {
                 if self.thorough() {
                     2_000_000
@@ -190,6 +192,28 @@ impl Ctx {
             "pairs" => {
                 let n = PAIR_LENS.len() as u64;
                 let kind = idx / (n * n);
+                if kind >= 4 {
+                    // long names made of undecodable / decodable octets, completed by a following attribute
+                    let j = idx - 4 * n * n;
+                    let len = LONG_NAME_LENS[(j / 4) as usize % LONG_NAME_LENS.len()];
+                    let nm: Vec<u8> = match j % 4 {
+                        0 => vec![0xff; len],
+                        1 => vec![0x80; len],
+                        2 => (0..len).map(|i| if i + 1 == len { 0xff } else { b'a' }).collect(),
+                        _ => "\u{20ac}".bytes().cycle().take(len - len % 3).collect(),
+                    };
+                    let mut v = gen::HDR.to_vec();
+                    v.push(0x01);
+                    for (name, val) in [(&nm[..], &[0u8, 0, 0, 1][..]), (&b"next"[..], &[0u8, 0, 0, 2][..])] {
+                        v.push(0x21);
+                        v.extend_from_slice(&(name.len() as u16).to_be_bytes());
+                        v.extend_from_slice(name);
+                        v.extend_from_slice(&(val.len() as u16).to_be_bytes());
+                        v.extend_from_slice(val);
+                    }
+                    v.push(0x03);
+                    return (v, format!("pairs long-name len={} fill={}", nm.len(), j % 4));
+                }
                 let (l1, l2) = (PAIR_LENS[((idx / n) % n) as usize], PAIR_LENS[(idx % n) as usize]);
                 let name = |c: u8, l: usize| -> Vec<u8> { (0..l).map(|i| if i == 0 { c } else { b'a' + (i % 26) as u8 }).collect() };
                 let mut v = gen::HDR.to_vec();
